@@ -19,6 +19,12 @@ type rtModel struct {
 	cbCount  int // exits reported to the exit callback
 	lastErr  int // 0 nil, 1 errFail (of the last reported exit)
 	outcomes [4]int
+	// extraCb: instances that were still running when SetRoutine replaced them. They are not
+	// stopped the way RestartRoutine/SetContext stop an instance, and the library reports their
+	// exit (context.Canceled) to the exit callbacks as "a routine exited"; the property speaks
+	// only about exits of current instances, so the machine accepts such a report but does not
+	// require it, and the order of that report and the successor's is not fixed.
+	extraCb int
 }
 
 // start models the effect of starting an instance and letting it run to quiescence.
@@ -109,14 +115,16 @@ func c14Run(nops int, backoff bool) {
 	k.SetRoutine(fn)
 	m.start()
 
-	ops := [3]int{vrt.Int("op0", 0, 5), vrt.Int("op1", 0, 5), vrt.Int("op2", 0, 5)}
+	ops := [3]int{vrt.Int("op0", 0, 6), vrt.Int("op1", 0, 6), vrt.Int("op2", 0, 6)}
+	// a new routine (a different function value with the same scripted behaviour)
+	fn2 := func(ctx context.Context) error { return fn(ctx) }
 
 	check := func() {
 		var r, c, ce int
 		vrt.Atomic(func() { r, c, ce = runs, cbCount, cbErr })
 		vrt.Assert(r == m.runs, "run-count-differs-from-machine")
-		vrt.Assert(c == m.cbCount, "exit-callback-count-differs-from-machine")
-		if c > 0 {
+		vrt.Assert(c >= m.cbCount && c <= m.cbCount+m.extraCb, "exit-callback-count-differs-from-machine")
+		if c > 0 && m.extraCb == 0 {
 			vrt.Assert(ce == m.lastErr, "exit-callback-error-differs-from-machine")
 		}
 		if m.hasCtx && m.status >= 2 {
@@ -187,6 +195,17 @@ func c14Run(nops int, backoff bool) {
 			// a running instance is cancelled; it is no longer current: no callback
 			if m.status == 1 {
 				m.status = 1
+			}
+		case 6: // SetRoutine(new routine): replaces the old one (a pending retry of it is dropped)
+			_, reset := k.SetRoutine(fn2)
+			vrt.Assert(reset == (m.hasCtx && m.status == 1), "setroutine-reset-return")
+			if m.hasCtx && m.status == 1 {
+				m.extraCb++
+			}
+			m.retry = false
+			m.status = 0
+			if m.hasCtx {
+				m.start()
 			}
 		default: // the backoff interval passes
 			vrt.Advance()
